@@ -19,7 +19,8 @@ TRUSTED = [
 ]
 ASSUMPTIONS = ['one client at a time (the other-handle scenarios use several handles, one after the other); the clock is frozen during a call', 'expire()/lazy-cull clauses: absolute expiry times >= 0 (finding C04-F1 otherwise)',
                'other-handle scenarios are decided by the monitor only (rows before / after through the harness\'s own connection); the row model has one handle',
-               'twin-key histories (a pickled key and the bytes key equal to its pickle): monitor only, not rendered for the row model']
+               'twin-key histories (a pickled key and the bytes key equal to its pickle): monitor only, not rendered for the row model',
+               'queue visibility behind runs of expired items (queue_visible scenarios): decided by the monitor only, from the ledger of what was pushed and when it expires']
 
 W = {'set': 16, 'add': 8, 'get': 14, 'contains': 8, 'touch': 8, 'incr': 8, 'pop': 5, 'delete': 5, 'delitem': 2,
      'push': 8, 'pull': 5, 'peek': 4, 'peekitem': 3, 'expire': 4, 'cull': 1, 'len': 1, 'iter': 1, 'evict': 0, 'clear': 0,
@@ -571,6 +572,126 @@ def other_handles(ctx, res, stats, thorough):
     res.sample({'check': 'other_handles', 'containers': CONTAINERS, 'handles': HANDLE_KINDS, 'entries': ENTRIES, 'scenarios': st['scenarios']})
 
 
+# ---------------------------------------------------------------------------------------------------------------
+# "Visible until expiry" for queue items: a live item stays visible to peek / pull / peekitem however many expired-but-still-stored items
+# stand between it and the end that is looked at.
+
+QV_RUNS = [0, 1, 2, 9, 10, 11, 19, 20, 21, 25, 33]
+QV_RUNS_THOROUGH = [3, 5, 29, 30, 31, 40, 50, 101, 120]
+_QMISS = ('<no-key>', '<no-value>')
+
+
+def queue_visible_case(mkdir, p):
+    """One scenario p = {front, back, live, side, op, prefix, push_side, dt, cull_limit}: at t = 1000 a queue is filled (cull_limit 0 unless
+    given, so nothing is removed lazily) with p['front'] items of ttl 1, then p['live'] items (the first with ttl 100, the others without
+    ttl), then p['back'] items of ttl 2 (pushed to p['push_side']; inline and file-backed values); the clock moves to 1000 + dt; then
+    p['op'] (peek / pull / peekitem; peek twice, pull until the queue reports empty) is called from p['side'].  The ledger of what was
+    pushed and when it expires decides what must be returned: the first (last) item in queue order whose expiry time has not passed, with
+    its key, value and expire_time; the default / KeyError only when no such item is left.
+    -> (problems [(sig, text)], info)"""
+    d = mkdir()
+    clock = instr.Clock(1000.0)
+    problems = []
+    op, side, prefix = p['op'], p['side'], p.get('prefix')
+    now = 1000.0 + p['dt']
+    with instr.Installed(clock):
+        c = diskcache.Cache(d, cull_limit=p.get('cull_limit', 0), disk_min_file_size=16, eviction_policy='none')
+        try:
+            plan = [1] * p['front'] + ([100] + [None] * (p['live'] - 1) if p['live'] else []) + [2] * p['back']
+            ledger = []                 # in push order: (key, value, expire_time)
+            for i, ttl in enumerate(plan):
+                v = ('item', i) if i % 3 == 0 else ('v%d' % i if i % 3 == 1 else 'file-backed value %d ' % i * 2)
+                k = c.push(v, prefix=prefix, side=p.get('push_side', 'back'), expire=ttl)
+                ledger.append((k, v, None if ttl is None else 1000.0 + ttl))
+            order = ledger if p.get('push_side', 'back') == 'back' else ledger[::-1]     # queue order, front first
+            if op == 'peekitem':
+                order = ledger                                                       # peekitem: insertion order of the whole cache
+            clock.set(now)
+            remaining = list(order)
+            steps = 2 if op in ('peek', 'peekitem') else sum(1 for x in order if x[2] is None or now < x[2]) + 1
+            for step in range(steps):
+                alive = [x for x in remaining if x[2] is None or now < x[2]]
+                want = None if not alive else (alive[0] if side == 'front' else alive[-1])
+                try:
+                    with callguard.bounded(CALL_SECONDS, op):
+                        if op == 'peek':
+                            got = c.peek(prefix=prefix, default=_QMISS, side=side, expire_time=True)
+                        elif op == 'pull':
+                            got = c.pull(prefix=prefix, default=_QMISS, side=side, expire_time=True)
+                        else:
+                            try:
+                                got = c.peekitem(last=(side == 'back'), expire_time=True)
+                            except KeyError:
+                                got = (_QMISS, None)
+                except callguard.CallDidNotReturn:
+                    problems.append(('call_did_not_return:%s' % op, '%s did not return within %d s of wall time' % (op, CALL_SECONDS)))
+                    break
+                except Exception as e:  # noqa
+                    problems.append(('queue_lookup_raised:%s' % op, '%s(side=%r) raised %r' % (op, side, e)))
+                    break
+                what = ('queue %r: %d items of ttl 1, %d live items, %d items of ttl 2 pushed at t=1000 (%d still stored); at t=%r call %d of %s from the %s'
+                        % (prefix, p['front'], p['live'], p['back'], len(c), now, step + 1, op, side))
+                (gk, gv), ge = got
+                if want is None:
+                    if (gk, gv) != _QMISS:
+                        problems.append(('delivered_expired:%s' % op, what + ' returned %r (expire_time %r): no item is live' % ((gk, gv), ge)))
+                        break
+                    continue
+                if (gk, gv) == _QMISS:
+                    problems.append(('live_queue_item_invisible:%s' % op, what + ' reported the queue empty; the live item %r (expire_time %r) stands behind %d other items of the ledger, none of them live'
+                                     % (want[:2], want[2], (remaining.index(want) if side == 'front' else len(remaining) - 1 - remaining.index(want)))))
+                    break
+                if gk != want[0] or not expected_same(gv, want[1]) or ge != want[2]:
+                    problems.append(('wrong_queue_item:%s' % op, what + ' returned %r (expire_time %r), expected the %s live item %r (expire_time %r)'
+                                     % ((gk, gv), ge, 'first' if side == 'front' else 'last', want[:2], want[2])))
+                    break
+                if op == 'pull':
+                    remaining.remove(want)
+        finally:
+            c.close()
+    return problems, {'pushed': len(plan)}
+
+
+def queue_visible_params(seed, thorough):
+    out = []
+    runs = QV_RUNS + (QV_RUNS_THOROUGH if thorough else [])
+    n = 0
+    for i, run in enumerate(runs):
+        for side in ('front', 'back'):
+            for op in ('peek', 'pull', 'peekitem'):
+                n += 1
+                other = runs[(i + n + seed) % len(runs)] if n % 2 else 0
+                front, back = (run, other) if side == 'front' else (other, run)
+                out.append({'check': 'queue_visible', 'front': front, 'back': back, 'live': 1 + (n + seed) % 3, 'side': side, 'op': op,
+                            'prefix': None if op == 'peekitem' or n % 4 == 0 else 'jobs', 'push_side': 'back' if n % 3 else 'front', 'dt': 5.0})
+    # controls: nothing live at all; the clock between the two ttls (the run of ttl 2 is still live); lazy removal switched on
+    for n, run in enumerate([10, 25] + ([50] if thorough else [])):
+        for side in ('front', 'back'):
+            out.append({'check': 'queue_visible', 'front': run, 'back': run, 'live': 0, 'side': side, 'op': ('peek', 'pull')[n % 2], 'prefix': 'jobs',
+                        'push_side': 'back', 'dt': 5.0})
+            out.append({'check': 'queue_visible', 'front': run, 'back': 3, 'live': 2, 'side': side, 'op': ('pull', 'peek')[n % 2], 'prefix': None,
+                        'push_side': 'back', 'dt': 1.5})
+            out.append({'check': 'queue_visible', 'front': run, 'back': 12, 'live': 1, 'side': side, 'op': 'peek', 'prefix': 'jobs',
+                        'push_side': 'back', 'dt': 2.0, 'cull_limit': 10})
+    return out
+
+
+def queue_visibility(ctx, res, stats, thorough):
+    st = stats.setdefault('queue_visible', {'scenarios': 0, 'items_pushed': 0, 'run_lengths': sorted(set(QV_RUNS + (QV_RUNS_THOROUGH if thorough else [])))})
+    seen = set()
+    for p in queue_visible_params(ctx.seed, thorough):
+        problems, info = queue_visible_case(lambda: ctx.scratch('c04qv'), p)
+        st['scenarios'] += 1
+        st['items_pushed'] += info['pushed']
+        res.count(['queue-visible', sorted(p.items(), key=repr)], nontrivial=p['live'] > 0)
+        for sig, text in problems[:1]:
+            if sig not in seen:
+                seen.add(sig)
+                res.violations.append(fw.Violation(sig, text, dict(p)))
+        if sum(1 for s in seen if s.startswith('call_did_not_return')) >= 2:
+            break
+
+
 def witnesses(res):
     import tempfile, shutil
     d = tempfile.mkdtemp(prefix='c04wit-')
@@ -602,7 +723,11 @@ def run(ctx, big=False):
                 'Every history: no call changes the expire_time of an item stored under another key; lookups and removals change none; touch writes now + ttl '
                 'iff it returns True.  Twin keys: histories over a key stored in pickled form ((1, 2), None, 2^64, True, ...) and the bytes key equal to its '
                 'pickle (same key column, other raw flag) plus one plain key, touch-heavy, with a directed prefix (both stored with different ttls, each touched, '
-                'one deleted / expired and touched again while its twin is live).')
+                'one deleted / expired and touched again while its twin is live).  Queue visibility: queues with a run of 0..33 (thorough: ..120) items of '
+                'ttl 1 in front of 0..3 live items (ttl 100 / none) and a run of items of ttl 2 behind them (cull_limit 0, pushed to the back or the front, '
+                'with and without prefix), the clock moved past both ttls (controls: between them; nothing live): peek (twice), pull (until empty) and '
+                'peekitem from both sides return the first / last item of the ledger whose expiry time has not passed, with its key, value and '
+                'expire_time, and the default only when none is left.')
     stats = {'lookups': 0, 'at_expiry_instant': 0, 'on_expired_row': 0, 'deliveries': 0, 'expire_calls': 0, 'expire_max_batch': 0,
              'lazy_removed': 0, 'ops': {}}
     thorough = not ctx.quick or big
@@ -614,6 +739,8 @@ def run(ctx, big=False):
     res.extra['other_handles'] = stats.get('other_handles')
     twin_histories(ctx, res, stats, thorough)
     res.extra['twin_key_calls'] = stats.get('twin_calls')
+    queue_visibility(ctx, res, stats, thorough)
+    res.extra['queue_visible'] = stats.get('queue_visible')
     if not ctx.search_mode:
         correspondence(ctx, res, terms + t2, recs + r2)
     res.extra.update({'lookups_checked': stats['lookups'], 'lookups_exactly_at_expiry_instant': stats['at_expiry_instant'],
@@ -635,6 +762,17 @@ def replay(payload):
         d = tempfile.mkdtemp(prefix='c04r-')
         try:
             problems, info = other_handle_case(lambda: tempfile.mkdtemp(prefix='oh-', dir=d), case)
+            print(info)
+            for sig, text in problems:
+                print(sig, text)
+            return not problems
+        finally:
+            shutil.rmtree(d, ignore_errors=True)
+    if case.get('check') == 'queue_visible':
+        import tempfile, shutil
+        d = tempfile.mkdtemp(prefix='c04r-')
+        try:
+            problems, info = queue_visible_case(lambda: tempfile.mkdtemp(prefix='qv-', dir=d), case)
             print(info)
             for sig, text in problems:
                 print(sig, text)
